@@ -52,6 +52,10 @@ CHECKS = {
                   "validate against FIX44.xml and an independent required-tag list, be quantity-consistent, carry fresh ExecIDs / stable "
                   "OrderIDs and be processed by the order object; clean session scripts are run against the simulated acceptor and a real "
                   "acceptor endpoint and compared."),
+    "C07": ("2 (C07)", "Two real endpoints with real codec, session logic and journals (FakeSQLite files surviving the breaks) over in-memory pipes: "
+                  "every fault schedule of the macro-step family (symbolic numbers of sends per side, solver-chosen delivered prefixes per "
+                  "direction before each break, up to two breaks incl. one inside the recovery traffic, three recovery drain orders, "
+                  "transport error kinds through the real reader task) is explored; oracle = exactly-once in-order delivery, both ACTIVE, counters agree."),
     "C08": ("2 (C08)", "Operation sequences on the real Journaler (FakeSQLite) with the crash slot as a solver variable over every point "
                   "before/after every SQL statement and commit, plus normal close; after the crash a fresh Journaler must show a state "
                   "at an operation boundary. Counterexamples and sampled witnesses are re-run on the real sqlite3 with os._exit in a child."),
